@@ -337,10 +337,33 @@ static void gen_search(vh_rng_t *rng)
     }
   }
   s->nrules = 0;
-  for (i = 0; i < sm.ncand && s->nrules < SIM_MAXRULES; i++) {
+  for (i = 0; i < sm.ncand && s->nrules + 1 < SIM_MAXRULES; i++) {
     sim_rule_t *r;
+    int         addr_unspec = (t->kind == RK_GETADDRINFO || t->kind == RK_GETHOSTBYNAME) && t->family == AF_UNSPEC;
     if (!sm.encodable[i]) {
       continue;
+    }
+    if (addr_unspec && sm.outcome[i] == SO_DATA && vh_chance(rng, 1, 2)) {
+      /* the two sub-queries of one candidate disagree: one family has data, the other fails.  Data
+       * wins: the candidate still is the first one that yields data (the statement's stop rule) */
+      static const int other[] = { SO_SERVFAIL, SO_REFUSED, SO_NXDOMAIN, SO_NODATA, SO_TIMEOUT };
+      int              fail_t  = vh_chance(rng, 1, 2) ? SDNS_T_AAAA : SDNS_T_A;
+      int              j, dupname = 0;
+      for (j = 0; j < i; j++) {
+        if (sm.encodable[j] && !strcmp(sm.qname[i], sm.qname[j])) {
+          dupname = 1;
+        }
+      }
+      if (!dupname) {
+        r = &s->rules[s->nrules++];
+        memset(r, 0, sizeof(*r));
+        snprintf(r->name, sizeof(r->name), "%s", sm.qname[i]);
+        r->qtype  = fail_t;
+        r->action = so_action[other[vh_below(rng, 5)]];
+        r->nrec   = 1;
+        r->ttl    = 120;
+        sim_note("search_split_outcome_candidate");
+      }
     }
     r = &s->rules[s->nrules++];
     memset(r, 0, sizeof(*r));
@@ -439,6 +462,20 @@ static void mon_search(void)
       }
     }
     return;
+  }
+  if (addr && t->cb_status == ARES_SUCCESS && sm.nexpected > 0 && !sm.status_unspecified && !sm.zero_questions &&
+      sm.expected_status == ARES_SUCCESS) {
+    /* C13: addresses come from answers for the winning candidate name only */
+    MON_EVAL("search_addresses_from_winner");
+    for (i = 0; i < t->nserials; i++) {
+      uint32_t sr = t->serials[i];
+      if (sr && sr <= sim_npkt && sim_pktinfo[sr - 1].txidx >= 0 &&
+          strcmp(sim_tx[sim_pktinfo[sr - 1].txidx].qname, sm.qname[sm.nexpected - 1]) != 0) {
+        vh_violation("addr:address-from-losing-candidate", "'%s': result contains an address from the answer for '%s' but the winning candidate is '%s'",
+                     t->name, sim_tx[sim_pktinfo[sr - 1].txidx].qname, sm.qname[sm.nexpected - 1]);
+        break;
+      }
+    }
   }
   if (nseen != sm.nexpected) {
     char key[128];
